@@ -17,6 +17,7 @@ def dispatch (prop : String) (args : List Nat) : String :=
   | "C19" => C19.handle args
   | "C17" => C17.handle args
   | "C03" => C03.handle args
+  | "C16" => C16.handle args
   | "C01" => C01.handle args
   | "C09" => C09.handle args
   | "C11" => C11.handle args
